@@ -33,7 +33,7 @@ VALIDATORS = [
     ('check-ai', 'check-ai', 'CheckAiValidator'),
     ('check-lua', 'check-lua', 'CheckLuaValidator'),
 ]
-NAME_ALPHABET = sorted(set(ord(c) for n, _a, _s in VALIDATORS for c in n) | {32})
+NAME_ALPHABET = sorted(set(ord(c) for n, _a, _s in VALIDATORS for c in n + n.upper()) | {32})      # both letter cases: names are case-sensitive
 
 
 def factories(I, prog):
